@@ -29,7 +29,7 @@ pub const HOLES: &[&str] = &[
     "□",
     "token A B; start s; s: □;",
     "token A B; start s; s: A □ B;",
-    "token A; start s; s: □ | A;",
+    "token A; start t; t: s; s: □ | A;",
     "token □;",
     "token A; start s; □ s: A;",
     "token A B; start s; s: (□);",
@@ -37,12 +37,14 @@ pub const HOLES: &[&str] = &[
     "token A='a' B; right □; start s; s: A;",
 ];
 
-/// Gap fillers of the LAYOUT family.  The first `REDUCED_FILLERS` entries form the reduced set.
+/// Gap fillers of the LAYOUT family.  The first `REDUCED_FILLERS` / `MEDIUM_FILLERS` entries form
+/// the sets used at three deviations.
 pub const FILLERS: &[&str] = &[
     "", " ", "\n", " // c\n", "// c\n", " /* c */ ", "/// c\n", "\n\n", "\n   ", " /// c\n",
     "/* c */", "\t", "\r\n", " /* c\nd */ ",
 ];
 pub const REDUCED_FILLERS: usize = 7;
+pub const MEDIUM_FILLERS: usize = 10;
 
 /// Syntactically valid seed grammars as token lists (tokens separated by one space).
 pub const LAYOUT_SEEDS: &[&str] = &[
@@ -446,9 +448,11 @@ pub fn plan(ctx: &Ctx, property: &str, thorough: bool) -> Plan {
         }
     }
     let g = if thorough { 3 } else { 2 };
+    // layout is what C17/C18 are about; for C12 it only has to be present
+    let fillers_at_3 = if property == "C12" { REDUCED_FILLERS } else { MEDIUM_FILLERS };
     for devs in 0..=g {
         for seed in 0..ctx.layout.len() {
-            let nfillers = if devs == 3 { REDUCED_FILLERS } else { FILLERS.len() };
+            let nfillers = if devs == 3 { fillers_at_3 } else { FILLERS.len() };
             blocks.push(Block::Layout { seed, devs, nfillers });
         }
     }
@@ -472,7 +476,7 @@ pub fn plan(ctx: &Ctx, property: &str, thorough: bool) -> Plan {
                     "insert": inserts, "byte_truncation": byte_truncations},
                 "insert_alphabet_size": FULL.len()},
         "LAYOUT": {"seeds": ctx.layout.len(), "g": g, "fillers": FILLERS.len(),
-                   "fillers_at_3_deviations": REDUCED_FILLERS},
+                   "fillers_at_3_deviations": if thorough { fillers_at_3 } else { 0 }},
     });
     Plan { blocks, units, bounds }
 }
